@@ -31,7 +31,62 @@ def oracle(case, a):
             return "foreign entry %s (created outside the transaction) is gone after Rollback" % enc(wp)
         if kind == "F" and cur["data"] != data:
             return "foreign file %s changed: %s, expected %s" % (enc(wp), cur["data"], data)
+    return untracked_unchanged(case, a)
+
+
+def untracked_unchanged(case, a):
+    """First clause of the property, judged on Rollback alone: an entry of the base region that is
+    not tracked when Rollback starts (its path is not a key of Map()) is the same entry afterwards
+    (directory timestamps exempt).  Skipped when a tracked path lies below a symlink (before the
+    transaction or when Rollback starts): restoring such a path legitimately writes elsewhere
+    (recorded findings D14/D17 live there), and the rule must not judge those."""
+    lab = str(len(case.ops) - 2)
+    if case.ops[-2][0] != "dump" or lab not in a["S"] or lab not in a["M"] or "final" not in a["S"]:
+        return None
+    cfg = case.cfg
+    tracked = set(dec(l.split(" ")[0]) for l in a["M"][lab])
+    # a relatively named path is tracked under its relative spelling (the working directory is the root)
+    tracked |= set(pg.goclean(b"/" + k) for k in tracked if not k.startswith(b"/"))
+    links = set()
+    for label in ("0", lab):
+        for l in a["S"].get(label, []):
+            f = bfsprops.fields(l)
+            if f["kind"] == "L":
+                links.add(f["path"])
+    for k in tracked:
+        wk = t2.world_path(cfg, k)
+        if any(anc in links for anc in t2.parents(wk)):
+            return None
+    final = {worldrun.path_of(l): worldrun.strip_for_c01(l) for l in worldrun.region(a["S"]["final"], cfg, "base")}
+    for l in worldrun.region(a["S"][lab], cfg, "base"):
+        wp = worldrun.path_of(l)
+        if bfsprops.view_of_world(cfg, wp) in tracked or wp == (t2.view_prefix(cfg) or b"/"):
+            continue
+        before = worldrun.strip_for_c01(l)
+        if final.get(wp) != before:
+            return "entry %s, never tracked by the transaction, changed during Rollback: %s -> %s" % (enc(wp), before, final.get(wp))
     return None
+
+
+def targeted_cases(rnd):
+    """a symlink that the transaction itself puts in the place of a tracked file / directory and
+    that points at an entry no operation names: Rollback must restore the tracked path, not
+    write (or chmod/chown) through the link"""
+    cases = []
+    for i, cfg in enumerate(t2.CONFIGS):
+        base, _ = t2.gen_history(rnd, cfg, nops=1)
+        w = lambda v: t2.world_path(cfg, v)
+        extra = [("F", w(b"/tta"), 0o640, 1000, 1001, 90, "Borig"), ("F", w(b"/ttu"), 0o4755, 1001, 1000, 91, "Bkeep"),
+                 ("L", w(b"/ttl"), 0, 0, 92, b"ttu"),
+                 ("D", w(b"/ttd"), 0o700, 1000, 1000, 93), ("D", w(b"/ttv"), 0o2775, 1001, 1001, 94), ("F", w(b"/ttv/in"), 0o600, 0, 0, 95, "Bin")]
+        for j, body in enumerate([
+                [("rename", b"/ttl", b"/tta")],
+                [("remove", b"/tta"), ("symlink", b"ttu", b"/tta")],
+                [("remove", b"/ttd"), ("symlink", b"ttv", b"/ttd")],
+                [("remove", b"/tta"), ("symlink", b"ttu", b"/tta"), ("remove", b"/ttd"), ("symlink", b"/ttv", b"/ttd")]]):
+            ops = [("dump",)] + body + [("dump",), ("rollback",)]
+            cases.append(t2.Case("c13-link-%d-%d" % (i, j), cfg, base + extra, ops, meta={"foreign": []}))
+    return cases
 
 
 def rle_of(spec):
@@ -44,7 +99,7 @@ def run(ctx):
     tier, seed, model_ok = ctx["tier"], ctx["seed"], ctx["model_ok"]
     rnd = random.Random(seed)
     n = 200 if tier == "quick" else 4000
-    cases = []
+    cases = targeted_cases(rnd)
     for i in range(n):
         cfg = t2.CONFIGS[i % len(t2.CONFIGS)]
         inits, ops = t2.gen_history(rnd, cfg, nops=rnd.randint(2, 9))
@@ -81,6 +136,6 @@ def run(ctx):
         new_ops += [("dump",), ("rollback",)]
         cases.append(t2.Case("c13-%d" % i, cfg, inits, new_ops, meta={"foreign": foreign}))
     r = worldrun.run_stream("C13", "footprint", cases, model_ok, level=2, oracle=oracle,
-                            nontrivial=lambda c, a: any(o[0].startswith("ext") for o in c.ops),
-                            desc="random histories interleaved with direct (un-spied) modifications: fresh files/directories in directories that predate the transaction, fresh files inside backup directories; then Rollback; oracle: every foreign entry still present with its content; the primitive traces (L2) are compared with the model too (a RemoveAll in place of Remove is a trace difference); non-trivial = at least one foreign entry")
+                            nontrivial=lambda c, a: any(o[0].startswith("ext") for o in c.ops) or c.id.startswith("c13-link"),
+                            desc="random histories interleaved with direct (un-spied) modifications: fresh files/directories in directories that predate the transaction, fresh files inside backup directories; then Rollback; oracle: every foreign entry still present with its content; the primitive traces (L2) are compared with the model too (a RemoveAll in place of Remove is a trace difference); non-trivial = at least one foreign entry; in front, targeted histories in which the transaction puts a symlink to a never-named entry in the place of a tracked file/directory; second oracle: every entry of the base region that is not tracked when Rollback starts is unchanged by Rollback (skipped when a tracked path lies below a symlink)")
     return {"streams": [r]}
